@@ -1,6 +1,5 @@
 """C13 — row-level filtering returns exactly the rows that satisfy the predicate. DESIGN.md section 6, C13."""
 import json
-import multiprocessing as mp
 import os
 import shutil
 import sys
@@ -350,13 +349,17 @@ def run(ctx):
     ncorpus = len(jobs)
     for _ in range(n_ds):
         jobs.append(gen_job(rng, v2=(rng.random() < 0.35), nprog=20 if quick else 40, nmask=6 if quick else 10))
-    with mp.get_context("fork").Pool(min(8, os.cpu_count() or 4), initializer=_init) as pool:
-        results = pool.map(run_dataset, jobs, chunksize=2)
+    results = C.pmap(run_dataset, jobs, init=_init, nproc=min(8, os.cpu_count() or 4), job_timeout=300)
 
     mexprs, mmeta = [], []
     pexprs, pmeta = [], []
     for (spec, progs, masks, want_model), res in zip(jobs, results):
-        ctx.count("dataset.pages", ("v2" if spec.get("v2") else "v1") + ("/multi" if (res.get("max_pages") or 0) > 1 else "/single"))
+        if "__crashed__" not in res:
+            ctx.count("dataset.pages", ("v2" if spec.get("v2") else "v1") + ("/multi" if (res.get("max_pages") or 0) > 1 else "/single"))
+        if "__crashed__" in res:
+            ctx.fail({"component": "row-filter", "outcome": "crashed", "pages": "v2" if spec.get("v2") else "v1", "scheme": spec["scheme"]},
+                     {"spec": spec, "progs": progs, "masks": masks}, "row-filtered reads of this dataset did not complete: " + res["__crashed__"])
+            continue
         if res["error"]:
             ctx.count("dataset.write_or_full_read_raised", res["error"][:60])
             ctx.case({"spec": spec, "error": res["error"]}, trivial=True)
